@@ -151,3 +151,17 @@ Proof.
     apply (b_last (VInt 2) "2" ""); [apply (r_atom (VInt 2)); discriminate|ws].
   - exists "  ", "; done". repeat split; [ws|discriminate|]. right. exists " done". split; reflexivity.
 Qed.
+
+(** a single-expression read consumes the entire input *)
+From WalModel.proofs Require ReadWhole.
+Theorem a_successful_read_leaves_nothing_over : forall s v r, read_sexpr s = ROk v r -> r = EmptyString.
+Proof. exact ReadWhole.read_consumes_the_whole_text. Qed.
+Print Assumptions a_successful_read_leaves_nothing_over.
+Theorem text_left_after_the_expression_is_an_error : forall s v c r,
+  modelled_text s = true -> p_sexpr (reader_fuel s) s = ROk v (String c r) -> read_sexpr s = RErr.
+Proof. exact ReadWhole.leftover_text_is_an_error. Qed.
+Print Assumptions text_left_after_the_expression_is_an_error.
+Example two_expressions_in_a_single_read_are_rejected :
+  read_sexpr "1 2" = RErr /\ read_sexpr "(+ 1 2) (exit 1)" = RErr /\ read_sexpr "1 " = ROk (VInt 1) "".
+Proof. exact ReadWhole.two_expressions_are_rejected. Qed.
+Print Assumptions two_expressions_in_a_single_read_are_rejected.
